@@ -79,7 +79,8 @@ class Records:
         for t in module.typedefs:
             td.setdefault((t[2], t[3]), []).append(t[0])
         for t in module.ditypes:
-            names = [t["name"]] if t["name"] else td.get((t["file"], t["line"]), [])
+            names = [t["name"]] if t["name"] else (
+                td.get((t["file"], t["line"]), []) + ["anon@%d:%d" % (t["file"], t["line"])])
             for n in names:
                 if n and n not in self.rec:
                     self.rec[n] = t
